@@ -150,6 +150,18 @@ PRPrograms(z) == {
   << <<Put(Lit(Bool(TRUE)), "x"), SWhile(0, Eq(Pro, Lit(Bool(TRUE))), <<Put(Lit(Bool(FALSE)), "x")>>), Say(Var("x")), Say(Pro)>> >>
 }
 
+(* LT: programs for the linter as TEXT: constant assignments of every form at every depth, repeated mentions, several blocks *)
+LTPrograms(z) == {
+  << <<Put(N(5), "x"), Say(Var("x")), SPNum(0, Var("y"), N(3)), Put(S("hi"), "h")>>,
+     <<SIf(0, Var("x"), <<Put(Bin("plus", N(1), <<N(2)>>), "y"), SRock(0, Var("a"), <<N(4)>>)>>, TRUE, <<SAssign(0, Idx(Var("a"), N(0)), "none", <<N(7)>>)>>)>>,
+     <<Say(Var("y")), Say(Var("y"))>> >>,
+  << <<SFunc(0, "f", <<"p">>, <<SWhile(0, Var("p"), <<Put(Un("neg", N(5)), "q"), SBreak(0)>>), Put(N(2), "p"), Ret(Var("p"))>>)>>,
+     <<Put(Bin("times", N(2), <<N(3), N(4)>>), "x"), Say(Call("f", <<Var("x")>>)), Say(Var("x"))>>,
+     <<SRock(0, Var("a"), <<N(1), N(2)>>), SRock(0, Var("a"), <<Bin("over", N(1), <<N(2)>>)>>), Say(Var("a"))>> >>,
+  << <<Put(Var("x"), "y"), Put(Bin("minus", N(0), <<N(1)>>), "x")>>, <<SPStr(0, Var("h"), "some text"), Say(Var("h")), Say(Var("h"))>>,
+     <<SUntil(0, Lit(Bool(TRUE)), <<Put(Lit(Fin(96)), "x")>>), Put(S(""), "k"), SAssign(0, Var("x"), "plus", <<N(1)>>), Say(Var("x"))>> >>
+}
+
 -----------------------------------------------------------------------------
 (* AR: operation sequences over arrays that were copied from one another *)
 GDef == SFunc(0, "grow", <<"a">>, <<SRock(0, Var("a"), <<S("g")>>), SAssign(0, Idx(Var("a"), S("fk")), "none", <<N(1)>>), Ret(Var("a"))>>)
@@ -248,6 +260,19 @@ ILLPrograms(z) ==
   \cup { << <<a>>, <<b>>, <<SayS("end")>> >> : a, b \in { SBreak(0), SContinue(0), SReturn(0, N(1)), SFunc(0, "d", <<"a">>, <<>>), SCall(0, "d", <<N(1)>>) } }
 
 -----------------------------------------------------------------------------
+(* the subscript of a statement's target is evaluated exactly once, whatever the statement does with the element: the subscript *)
+(* takes the next number from a queue, so a second evaluation reads or writes another element and is visible in both arrays       *)
+OnceTarget == Idx(Var("a"), RollE(Var("q")))
+OnceStmts == {
+  STurn(0, "up", OnceTarget), STurn(0, "nearest", OnceTarget),                       \* (build / knock take a plain variable only)
+  SAssign(0, OnceTarget, "plus", <<N(1)>>), SAssign(0, OnceTarget, "times", <<N(2), N(3)>>), SAssign(0, OnceTarget, "none", <<N(9)>>),
+  SMut(0, "cast", OnceTarget, ENone, ENone), SMut(0, "cut", S("a,b"), OnceTarget, S(",")), SMut(0, "cast", S("12"), OnceTarget, ENone),
+  SRock(0, OnceTarget, <<N(1)>>), SRoll(0, OnceTarget, Var("y")), SRoll(0, Var("q"), OnceTarget), SListen(0, OnceTarget),
+  SPNum(0, OnceTarget, N(5)), SPStr(0, OnceTarget, "txt"), Say(OnceTarget),
+  SAssign(0, Idx(OnceTarget, RollE(Var("q"))), "none", <<N(4)>>) }
+OncePrograms == { << <<SRock(0, Var("q"), <<N(0), N(1), N(0)>>), SRock(0, Var("a"), <<Lit(Fin(96)), Lit(Fin(4192))>>), st, Say(Var("a")), Say(Var("q")), Say(Var("y"))>> >>
+                  : st \in OnceStmts }
+
 (* MU: cut / join / cast / turn on variables, subscripts and pronouns, with and without a destination *)
 MUPrograms(z) == {
   <<  <<SRock(0, Var("q"), <<S(","), S("a,b")>>), SMut(0, "cut", RollE(Var("q")), Var("r"), RollE(Var("q"))), Say(Var("r")), Say(Var("q"))>> >>,
@@ -262,7 +287,8 @@ MUPrograms(z) == {
         SRock(0, Var("a"), <<Lit(Fin(96))>>), STurn(0, "down", Idx(Var("a"), N(0))), Say(Idx(Var("a"), N(0)))>> >>,
   <<  <<Put(S("a"), "x"), SMut(0, "join", Var("x"), ENone, ENone)>> >>,
   <<  <<SRock(0, Var("x"), <<S("a"), N(1)>>), SayS("before"), SMut(0, "join", Var("x"), Var("y"), ENone), SayS("after")>> >>
-}
+} \cup OncePrograms
+
 
 -----------------------------------------------------------------------------
 =============================================================================
